@@ -16,14 +16,28 @@ ICAL = "xandikos.icalendar"
 PREFIX_RE = re.compile(r"^[A-Z]=$")
 
 
-def key_prefixes(fn_node: ast.AST) -> Set[str]:
+_FOLD = [None]   # (module -> fold) set per run: lets the syntax helpers fold module-level constants such as PREFIX = "C="
+
+
+def _strconst(n: ast.AST, mod=None):
+    if isinstance(n, ast.Constant) and isinstance(n.value, str):
+        return n.value
+    if isinstance(n, (ast.Name, ast.Attribute)) and _FOLD[0] is not None and mod is not None:
+        v = _FOLD[0](mod, n)
+        if isinstance(v, str):
+            return v
+    return None
+
+
+def key_prefixes(fn_node: ast.AST, mod=None) -> Set[str]:
     """Segment prefixes ("C=", "P=", "A=") a function concatenates into index keys."""
     out = set()
-    for n in ast.walk(fn_node):
+    for n in [fn_node] + list(walk_local(fn_node)):
         if isinstance(n, ast.BinOp) and isinstance(n.op, ast.Add):
             for side in (n.left, n.right):
-                if isinstance(side, ast.Constant) and isinstance(side.value, str) and PREFIX_RE.match(side.value):
-                    out.add(side.value)
+                v = _strconst(side, mod)
+                if v is not None and PREFIX_RE.match(v):
+                    out.add(v)
         if isinstance(n, ast.JoinedStr):
             for v in n.values:
                 if isinstance(v, ast.Constant) and isinstance(v.value, str):
@@ -33,12 +47,13 @@ def key_prefixes(fn_node: ast.AST) -> Set[str]:
     return out
 
 
-def handled_prefixes(fn_node: ast.AST) -> Set[str]:
+def handled_prefixes(fn_node: ast.AST, mod=None) -> Set[str]:
     out = set()
-    for n in ast.walk(fn_node):
-        if isinstance(n, ast.Call) and isinstance(n.func, ast.Attribute) and n.func.attr == "startswith" and n.args \
-                and isinstance(n.args[0], ast.Constant) and isinstance(n.args[0].value, str) and PREFIX_RE.match(n.args[0].value):
-            out.add(n.args[0].value)
+    for n in walk_local(fn_node):
+        if isinstance(n, ast.Call) and isinstance(n.func, ast.Attribute) and n.func.attr == "startswith" and n.args:
+            v = _strconst(n.args[0], mod)
+            if v is not None and PREFIX_RE.match(v):
+                out.add(v)
     return out
 
 
@@ -51,8 +66,9 @@ def filter_classes(ctx):
       desc="key grammar agreement: every segment prefix an index_keys() method can produce is handled by "
            "ICalendarFile._get_index")
 def x1(ctx):
+    _FOLD[0] = ctx.P.try_fold
     ex = ctx.own_method(ICAL + ".ICalendarFile", "_get_index")
-    handled = handled_prefixes(ex.node)
+    handled = handled_prefixes(ex.node, ex.module)
     if not handled:
         raise AnalysisError("ICalendarFile._get_index handles no prefix")
     obs = []
@@ -62,7 +78,7 @@ def x1(ctx):
         if ik is None:
             continue
         ctx.functions_analysed.add(ik.qualname)
-        for p in key_prefixes(ik.node):
+        for p in key_prefixes(ik.node, ik.module):
             produced.setdefault(p, []).append(ik.qualname)
     if len(produced) < 2:
         raise AnalysisError("index_keys methods produce only %s" % sorted(produced))
@@ -86,7 +102,8 @@ def x2(ctx):
         ik, mi = ci.methods.get("index_keys"), ci.methods.get("match_indexes")
         if ik is None or mi is None:
             continue
-        pk, ck = key_prefixes(ik.node), key_prefixes(mi.node)
+        _FOLD[0] = ctx.P.try_fold
+        pk, ck = key_prefixes(ik.node, ik.module), key_prefixes(mi.node, mi.module)
         if not ck:
             continue
         ctx.functions_analysed.update([ik.qualname, mi.qualname])
@@ -336,9 +353,9 @@ def x8(ctx):
     from .common import loop_body_nodes
     fi = ctx.own_method(ICAL + ".ICalendarFile", "_get_index")
     cfg = ctx.cfg(fi)
-    loops = [n for n in cfg.nodes if n.kind == "for" or (n.kind == "test" and isinstance(n.ast, ast.Name) and any(l == "t" for _m, l in n.succ)
-                                                          and any(m.id < n.id or True for m, _l in n.pred))]
-    loops = [n for n in cfg.nodes if n.kind == "for"] + [n for n in cfg.nodes if n.kind == "test" and isinstance(n.ast, ast.Name) and n.ast.id == "todo"]
+    # for-loops and while-loops (a test node that can be reached again from its own true edge)
+    loops = [n for n in cfg.nodes if n.kind == "for"] + \
+        [n for n in cfg.nodes if n.kind == "test" and n.id in cfg.reachable([m for m, l in n.succ if l == "t"], follow_exc=False)]
     if len(loops) < 2:
         raise AnalysisError("_get_index: component loops not found")
     obs = []
